@@ -13,7 +13,7 @@ ANCHORS = ['numdifftools.core:Derivative._raise_error_if_any_is_complex',
            'numdifftools.finite_difference:LogRule._apply',
            'numdifftools.core:directionaldiff', 'numdifftools.fornberg:fd_weights_all',
            'numdifftools.fornberg:fd_derivative', 'numdifftools.limits:CStepGenerator._check_path']
-MIN_COUNTERS = dict(quick={'misuse_calls': 900, 'kind:complex_step_on_complex_input': 400,
+MIN_COUNTERS = dict(quick={'misuse_calls': 1300, 'kind:complex_step_on_complex_input': 800,
                            'kind:not_one_value_per_element': 100, 'kind:multicomplex_n_above_2': 20,
                            'kind:too_few_steps': 100, 'kind:directionaldiff_size': 10, 'kind:fd_weights': 25,
                            'kind:fd_derivative': 100, 'kind:residue_order': 10, 'kind:limit_path': 5},
@@ -21,7 +21,7 @@ MIN_COUNTERS = dict(quick={'misuse_calls': 900, 'kind:complex_step_on_complex_in
 EXHAUSTIVE = dict(quick=True, thorough=False)
 EXHAUSTIVE_NOTE = 'the finite misuse matrix is enumerated completely in both tiers; thorough adds random shape/size draws'
 RULE = ('finite matrix: {Derivative, Gradient, Jacobian, Hessdiag, Hessian} x {complex, multicomplex} x {complex x, '
-        'complex-valued f, both} x dimension 1..4 x (n, order); multicomplex n in 3..6; num_steps below the rule length '
+        'complex-valued f, both} x dimension 1..4 x (n, order) x full_output; multicomplex n in 3..6; num_steps below the rule length '
         'with check_num_steps=False; functions returning fewer or non-broadcastable values; directionaldiff size '
         'mismatch; fd_weights/fd_weights_all with n >= len(x); fd_derivative with len(fx) != len(x), n >= len(x) and '
         'grids shorter than the documented stencil 2*(n//2+m)+2; Residue with order <= pole_order; unknown Limit path. '
@@ -57,8 +57,9 @@ def matrix():
                         cfgs = [(1, 2), (1, 4)]
                     for n, o in cfgs:
                         for scalar_x in ((True, False) if dim == 1 else (False,)):
-                            yield dict(kind='complex_step_on_complex_input', cls=cls, method=method, what=what,
-                                       dim=dim, n=n, order=o, scalar_x=scalar_x)
+                            for full in (False, True):
+                                yield dict(kind='complex_step_on_complex_input', cls=cls, method=method, what=what,
+                                           dim=dim, n=n, order=o, scalar_x=scalar_x, full_output=full)
     # 2. not one value per input element
     for method in ('central', 'forward', 'backward', 'complex', 'multicomplex'):
         for size in (2, 3, 5):
@@ -185,7 +186,7 @@ def run_case(case, ctx):
                 for k in range(dim):
                     s = s + np.exp(0.3 * t[k]) * (k + 1)
                 return cf * (s + t[0] * t[dim - 1])
-        kw = dict(method=method)
+        kw = dict(method=method, full_output=bool(case.get('full_output')))
         if cls == 'Derivative':
             kw.update(n=case['n'], order=case['order'])
         elif cls != 'Hessian':
